@@ -266,7 +266,7 @@ class GLibEventLoop(EventLoop):
         finally:
             if self._loop.is_running():
                 self._loop.quit()
-        if self._exc:
+        if self._exc is not None:
             # An exception caused us to exit, raise it now
             exc = self._exc
             self._exc = None
